@@ -41,6 +41,7 @@ static int op_array(int argc, char **argv, FILE *o) { uint64_t c, s; if (argc !=
 /* probes run in a forked child; the exit status tells what happened */
 typedef struct { uint64_t size; const char *kind; const char *arg; } probe_a;
 static volatile unsigned char sink;
+static void probe_returning_handler(int sig) { (void) sig; }
 static int probe_child(probe_a *a) {
     unsigned char *p = (unsigned char *) sodium_malloc((size_t) a->size);
     if (p == NULL) _exit(50);
@@ -48,6 +49,10 @@ static int probe_child(probe_a *a) {
     if (!strcmp(a->kind, "pastw")) { p[a->size] = 1; _exit(0); }
     if (!strcmp(a->kind, "last")) { if (a->size) { p[a->size - 1] = 7; sink = p[a->size - 1]; } sodium_free(p); _exit(0); }  /* in bounds: fine */
     if (!strcmp(a->kind, "canary")) { int i = atoi(a->arg); p[-1 - i] ^= 1; sodium_free(p); _exit(0); }   /* free must kill the process */
+    /* the same under the signal dispositions a host application may have installed: SIGSEGV (and SIGKILL cannot be) ignored, or handled by a handler that returns
+       — "makes freeing terminate the process" whatever the process did with its signals */
+    if (!strcmp(a->kind, "canary.ign")) { int i = atoi(a->arg); signal(SIGSEGV, SIG_IGN); p[-1 - i] ^= 1; sodium_free(p); _exit(0); }
+    if (!strcmp(a->kind, "canary.hdl")) { int i = atoi(a->arg); signal(SIGSEGV, probe_returning_handler); p[-1 - i] ^= 1; sodium_free(p); _exit(0); }
     if (!strcmp(a->kind, "before")) { sink = p[-17 - atoi(a->arg)]; _exit(0); }          /* before the canary, still in the RW page unless it crosses into the guard page */
     if (!strcmp(a->kind, "prot")) {     /* arg = history of n/r/w then probe letter R or W or F(ree) */
         const char *h = a->arg; size_t n = strlen(h), i;
